@@ -28,7 +28,11 @@ pub(crate) fn verif_reset_user_id() {
 const MAX_USERS: usize = u32::MAX as usize;
 
 impl System {
-    pub(crate) async fn load_users(&mut self, users: Vec<UserState>) -> Result<(), IggyError> {
+    pub(crate) async fn load_users(
+        &mut self,
+        users: Vec<UserState>,
+        last_journalled_user_id: u32,
+    ) -> Result<(), IggyError> {
         info!("Loading users...");
         if users.is_empty() {
             info!("No users found, creating the root user...");
@@ -81,7 +85,10 @@ impl System {
         }
 
         let users_count = self.users.len();
-        let current_user_id = self.users.keys().max().unwrap_or(&1);
+        // Replay numbers users in the order of their creation, deleted ones included, so the next
+        // ID has to continue from the journal and not from the highest ID that is still alive.
+        let current_user_id = *self.users.keys().max().unwrap_or(&1);
+        let current_user_id = current_user_id.max(last_journalled_user_id);
         USER_ID.store(current_user_id + 1, Ordering::SeqCst);
         self.permissioner
             .init(&self.users.values().collect::<Vec<&User>>());
